@@ -410,6 +410,30 @@ def cursor_moves(fn):
                 return True
             return False
 
+        def reaching_store(lp):
+            """the value last stored into local lp by a plain assignment earlier in the same block, with neither another
+            write of lp nor a change of the window between that store and this statement"""
+            blk = None
+            for b in ir.walk(fn["body"]):
+                if b.get("k") == "Block" and any(x is st for x in b.get("s", [])):
+                    blk = b
+            if blk is None:
+                return None
+            sts = blk["s"]
+            i = [j for j, x in enumerate(sts) if x is st][0]
+            for prev in reversed(sts[:i]):
+                u = unwrap(prev)
+                if isinstance(u, dict) and u.get("k") == "Bin" and u.get("op") == "=" and path(u.get("lhs")) == lp:
+                    return u["rhs"]
+                for x in ir.walk(prev):
+                    if is_mp_move(x) or (x.get("k") == "MCall" and (x.get("callee") or {}).get("cls") == DEC and not (x.get("callee") or {}).get("const")):
+                        return None
+                    if x.get("k") == "Bin" and x.get("op", "").endswith("=") and x["op"] not in ("==", "!=", "<=", ">=") and path(x.get("lhs")) == lp:
+                        return None
+                    if x.get("k") == "Un" and x.get("op") in ("pre++", "post++", "pre--", "post--") and path(x.get("e")) == lp:
+                        return None
+            return None
+
         def bounded(nexpr):
             nk = int_key(nexpr, env)
             cv = const_value(nexpr)
@@ -423,6 +447,8 @@ def cursor_moves(fn):
                         return True
             # n = min(x, m_end - m_p)
             d = env.definition(path(nexpr)) if path(nexpr) else None
+            if d is None and path(nexpr):
+                d = reaching_store(path(nexpr))
             for cand in (nexpr, d):
                 u = unwrap_all_casts(cand) if cand is not None else None
                 if isinstance(u, dict) and u.get("k") == "Call" and callee_name(u) == "min":
